@@ -21,6 +21,12 @@ for f in sorted(glob.glob(os.path.join(ROOT, "props", "C*", "manifest.json"))):
     frag.setdefault("engine", "coq-correspondence")
     checks.append(frag)
     claimed.add(pid)
+import subprocess
+try:
+    log = subprocess.run(["git", "-C", "/repo", "log", "--format=%h %s"], stdout=subprocess.PIPE, text=True).stdout
+    head["hooks"]["source_commits"] = [l.split()[0] for l in log.split("\n") if " verif hook" in l[:30]][::-1]
+except Exception:
+    pass
 head["checks"] = checks
 for e in head.get("engines", []):
     e["serves_properties"] = sorted(claimed)
